@@ -410,6 +410,60 @@ func runExtract(c *Case, r *mon.Rec, fr specref.Framing, rng *rand.Rand) {
 			}
 		}
 		_ = xerr
+		// the same request with its field list in another order and with unreachable coils mixed in (a hand-built
+		// BuilderRequest, as the library's documentation and tests construct them): every reachable coil still yields the
+		// value it yielded above and no error, whatever failed before it in the list
+		if len(vals) > 0 && len(vals) < 400 {
+			base := map[uint16]any{}
+			for _, fv := range vals {
+				if fv.Error == nil {
+					base[fv.Field.Address] = fv.Value
+				}
+			}
+			hb := rq
+			hb.Fields = append(modbus.Fields(nil), rq.Fields...)
+			rng.Shuffle(len(hb.Fields), func(a, b int) { hb.Fields[a], hb.Fields[b] = hb.Fields[b], hb.Fields[a] })
+			end := int(rq.StartAddress) + 8*len(pr.Data)
+			var bad []uint16
+			if rq.StartAddress > 0 {
+				bad = append(bad, rq.StartAddress-1, uint16(rng.Intn(int(rq.StartAddress))))
+			}
+			if end < 65536 {
+				bad = append(bad, uint16(end), uint16(end+rng.Intn(65536-end)))
+			}
+			unreachable := map[uint16]bool{}
+			for _, ad := range bad {
+				f := rq.Fields[0]
+				f.Address = ad
+				unreachable[ad] = true
+				at := rng.Intn(len(hb.Fields) + 1)
+				if rng.Intn(2) == 0 {
+					at = 0 // first in the list: everything else comes after a failure
+				}
+				hb.Fields = append(hb.Fields[:at], append(modbus.Fields{f}, hb.Fields[at:]...)...)
+			}
+			var v2 []modbus.FieldValue
+			pn, txt := mon.Catch(func() { v2, _ = hb.ExtractFields(resp, true) })
+			if pn {
+				r.Violate(c, "extract-panics", mon.Attrs{"fn": "ExtractFields", "hand_built": true}, txt)
+			}
+			r.Eval(len(v2))
+			if !pn && len(v2) != len(hb.Fields) {
+				r.Violate(c, "lenient-extract-drops-fields", mon.Attrs{"fn": "ExtractFields"}, fmt.Sprintf("%d fields in the request, %d values returned with continue-on-errors", len(hb.Fields), len(v2)))
+			}
+			for _, fv := range v2 {
+				ad := fv.Field.Address
+				switch {
+				case unreachable[ad] && fv.Error == nil:
+					r.Violate(c, "out-of-range-coil-without-error", mon.Attrs{"fn": "ExtractFields"}, fmt.Sprintf("coil %d lies outside the response (start %d, %d payload bytes) but came back as %v without an error", ad, rq.StartAddress, len(pr.Data), fv.Value))
+				case !unreachable[ad] && fv.Error != nil:
+					r.Violate(c, "in-range-error", mon.Attrs{"fn": "ExtractFields", "start": "hand-built"}, fmt.Sprintf("coil %d is inside the response (start %d, %d payload bytes); in a hand-built request with %d unreachable coils mixed in it came back with error: %v", ad, rq.StartAddress, len(pr.Data), len(bad), fv.Error))
+				case !unreachable[ad] && fv.Value != base[ad]:
+					r.Violate(c, "result-depends-on-field-order", mon.Attrs{"fn": "ExtractFields"}, fmt.Sprintf("coil %d: %v in the builder's order, %v in a shuffled hand-built request", ad, base[ad], fv.Value))
+				}
+			}
+			r.Cover("extract", "hand-built-shuffled-with-unreachable")
+		}
 		if wrong > 0 {
 			if rev {
 				r.Violate(c, "coil-bytes-reversed", mon.Attrs{"fn": "ExtractFields", "multi_byte": len(pr.Data) > 1}, fmt.Sprintf("request start %d, %d fields: %d values differ from device memory, all equal the byte-reversed layout", rq.StartAddress, len(vals), wrong))
